@@ -288,7 +288,7 @@ class BipartiteGraph:
             A new BipartiteGraph instance with only the right vertices that are
             True.  If sum(valid)==0, None is returned
         """
-        if np.size(valid) != self.V:
+        if np.size(valid) != self.W:
             raise ValueError('valid does not have the correct size')
 
         if np.sum(valid > 0) == 0:
